@@ -163,8 +163,9 @@ def _f10(f, pid, case, clause, ctx):
     only a second optimize() simplifies: optimize(optimize(e)) is smaller, and is a fixpoint."""
     if clause != "optimize-not-idempotent" or case.get("fn") != "optimize":
         return False
-    if not any(a in f["params"]["producers"] for a in _acts(case)):
-        return False
+    rules = case.get("second_pass_rules")
+    if not rules or not set(rules) <= set(f["params"]["second_pass_rules"]):
+        return False          # a rewrite outside the known set fired in the second pass: not this finding
     return (case.get("simp1") == case.get("simp2") and case.get("low1") == case.get("low2")
             and case.get("opt3") == case.get("opt2") and case.get("nodes2", 10 ** 9) <= case.get("nodes1", 0))
 
@@ -201,3 +202,14 @@ def _f01(f, pid, case, clause, ctx):
         elif e["keeps"] and (e["chunks"] != case["adv"]["chunks"] or e["name"] != case["adv"]["name"] or e["dtype"] != case["adv"]["dtype"]):
             bad.add(e["entry"])
     return bool(bad) and bad <= set(f["params"]["entries"])
+
+
+@matcher("slice_through_sliding_window_view_empties_input")
+def _f21(f, pid, case, clause, ctx):
+    prog = case.get("prog", [])
+    outs = {a.get("out") for a in prog if a.get("a") == "SlidingWindow"}
+    if not any(a.get("a") == "Index" and a.get("x") in outs for a in prog):
+        return False
+    txt = " ".join(str(case.get(k, "")) for k in ("detail", "err", "opt_err"))
+    txt += " ".join(str(p.get("val", {}).get("err", "")) for p in case.get("phases", []))
+    return "window shape cannot be larger than input array shape" in txt
